@@ -5,6 +5,8 @@
 package serial
 
 import (
+	"net/http"
+	"strings"
 	"bytes"
 	"crypto/ed25519"
 	"crypto/sha256"
@@ -318,6 +320,10 @@ func sxgInst(c *core.Ctx, label string, kind sxgKind) *inst {
 	for i := len(l.RespHeaders); i < 5; i++ {
 		l.RespHeaders = append(l.RespHeaders, gen.HV{Name: fmt.Sprintf("X-K%d", i), Value: "v"})
 	}
+	if c.Chance(label+".bigHeader", 1, 5) {
+		// one header value of kilobytes (a policy header), sorting last / first / in the middle
+		l.RespHeaders = append(l.RespHeaders, gen.HV{Name: c.PickStr(label+".bigHeaderName", "Zz-Policy-Report-Only", "A-Policy", "X-K2b"), Value: strings.Repeat("default-src 'self'; ", c.PickInt(label+".bigHeaderLen", 205, 300, 3500))})
+	}
 	if l.Version != "1b3" {
 		l.ReqHeaders = append(l.ReqHeaders, gen.HV{Name: "X-R1", Value: "1"}, gen.HV{Name: "x-r2", Value: "2"}, gen.HV{Name: "X-R3", Value: "3"})
 	}
@@ -503,6 +509,67 @@ func renewalInst(c *core.Ctx, label string) *inst {
 	return in
 }
 
+// twoSignersInst: a signatures section produced by two signers whose chains have
+// the same intermediate; in this instance both chains hold the SAME certificate
+// objects for it, in its variant each chain holds its own freshly parsed copy:
+// the serialized section is the same either way.
+func twoSignersInst(c *core.Ctx, label string) *inst {
+	pool := []string{"a-p256", "b-p384", "c-p256", "d-p384"} // leaves issued by the same CA
+	perm := c.Perm(label+".leaves", len(pool))
+	l1, l2 := fixtures.ByName(pool[perm[0]]), fixtures.ByName(pool[perm[1]])
+	date := c.I64(label+".date", 1600000000, 1700000000)
+	ent := [2]byte{byte(c.Int(label+".e1", 0, 255)), byte(c.Int(label+".e2", 0, 255))}
+	build := func(shared bool) *inst {
+		in := &inst{name: label + ":UpdateSignatures(two signers, common intermediate)", seqOnly: true}
+		in.run = func(w io.Writer) error {
+			ca := l1.Issuer()
+			var sigs *bundle.Signatures
+			for i, leaf := range []*fixtures.Leaf{l1, l2} {
+				inter := ca
+				if !shared {
+					inter = leaf.Issuer()
+				}
+				chain, err := certurl.NewCertChain([]*x509.Certificate{leaf.Cert(), inter}, []byte("ocsp"), nil)
+				if err != nil {
+					return err
+				}
+				if shared && i == 1 && sigs != nil && len(sigs.Authorities) > 1 {
+					chain[1] = sigs.Authorities[1] // the very same augmented-certificate object
+				}
+				host := leaf.Hosts[0]
+				if host[0] == '*' {
+					host = "sub" + host[1:]
+				}
+				vu, _ := url.Parse("https://" + host + "/validity")
+				signer, err := signature.NewSigner(bversion.Version("b2"), chain, leaf.Key, vu, time.Unix(date, 0), time.Hour)
+				if err != nil {
+					return err
+				}
+				signer.Algorithm, _ = verifhook.SigningAlgorithmForPrivateKey(leaf.Key, fixtures.ConstReader{B: ent[i]})
+				u, _ := url.Parse("https://" + host + "/r")
+				e := &bundle.Exchange{Request: bundle.Request{URL: u}, Response: bundle.Response{Status: 200, Header: http.Header{"Content-Type": {"text/plain"}}, Body: []byte("resource of " + host)}}
+				pih, err := e.AddPayloadIntegrity(bversion.Version("b2"), 16)
+				if err != nil {
+					return err
+				}
+				if err := signer.AddExchange(e, pih); err != nil {
+					return err
+				}
+				if sigs, err = signer.UpdateSignatures(sigs); err != nil {
+					return err
+				}
+			}
+			b := &bundle.Bundle{Version: bversion.Version("b2"), Signatures: sigs}
+			_, err := b.WriteTo(w)
+			return err
+		}
+		return in
+	}
+	in := build(true)
+	in.variant = func(*core.Ctx) *inst { return build(false) }
+	return in
+}
+
 // ---- bundle signed subset ---------------------------------------------------------------
 
 type subsetEntry struct {
@@ -565,6 +632,9 @@ func certChainInst(c *core.Ctx, label string) *inst {
 	}
 	certs = append(certs, fixtures.Leaves[perm[n-1]].Issuer())
 	ocsp := c.Bytes(label+".ocsp", 1, 300)
+	if c.Chance(label+".bigOcsp", 1, 5) {
+		ocsp = c.BytesN(label+".ocspBig", c.PickInt(label+".ocspBigLen", 4095, 4096, 5000, 70000)) // a real OCSP response is kilobytes
+	}
 	var sct []byte
 	if c.Bool(label + ".hasSct") {
 		sct = c.Bytes(label+".sct", 1, 100)
@@ -1037,6 +1107,7 @@ var instMakers = []func(c *core.Ctx) *inst{
 		return sxgInst(c, "sxgs", sxgAddSignature)
 	},
 	func(c *core.Ctx) *inst { return signedSubsetInst(c, "subset") },
+	func(c *core.Ctx) *inst { return twoSignersInst(c, "twosig") },
 	func(c *core.Ctx) *inst { return certChainInst(c, "chain") },
 	func(c *core.Ctx) *inst { return ibInst(c, "ibc", ibCborBytes) },
 	func(c *core.Ctx) *inst { return ibInst(c, "ibd", ibDataToBeSigned) },
